@@ -598,6 +598,20 @@ func (h *ResponseHeader) ContentLengthBytes() []byte {
 	return h.contentLengthBytes
 }
 
+// setBodyStreamLength records the length of a body stream. Under a status that takes
+// no framing fields (1xx, 204, 304) SetContentLength records nothing; a length declared
+// earlier, for another body, must not come back then when the status is changed again:
+// the length of this stream is unknown to the header.
+func (h *ResponseHeader) setBodyStreamLength(bodySize int) {
+	if h.MustSkipContentLength() {
+		h.contentLength = 0
+		h.contentLengthBytes = h.contentLengthBytes[:0]
+		h.h = delAllArgsBytes(h.h, bytestr.StrTransferEncoding)
+		return
+	}
+	h.SetContentLength(bodySize)
+}
+
 func (h *ResponseHeader) InitContentLengthWithValue(contentLength int) {
 	h.contentLength = contentLength
 }
